@@ -54,5 +54,5 @@ ReadExpr(ts, pos, minPrec) == Climb(ts, ReadPrimary(ts, pos), minPrec)
 Read(pieces) == ReadExpr(Toks(pieces), 1, 0).e
 
 RECURSIVE PureBinary(_)
-PureBinary(e) == e.k \in {"lit", "var"} \/ (e.k = "bin" /\ PureBinary(e.l) /\ PureBinary(e.r))
+PureBinary(e) == (e.k \in {"lit", "var"} /\ "raw" \notin DOMAIN e) \/ (e.k = "bin" /\ PureBinary(e.l) /\ PureBinary(e.r))
 =============================================================================
